@@ -237,6 +237,15 @@ impl TurbineSampler {
     // TODO: support more than 2 levels of Turbine?
     #[must_use]
     pub fn new_with_fanout(mut validators: Vec<ValidatorInfo>, turbine_fanout: usize) -> Self {
+        // With fewer than three validators nobody relays anything in Turbine,
+        // so there is no expected work to sample by: sample by stake instead.
+        if validators.len() < 3 {
+            return Self {
+                fanout: turbine_fanout,
+                stake_weighted: StakeWeightedSampler::new(validators),
+            };
+        }
+
         let total_stake: Stake = validators.iter().map(|v| v.stake).sum();
 
         // calculate expected work for each validator (only excess over leader work)
